@@ -816,3 +816,27 @@ mutant(
     "NEST-DISPATCH-1",
     (PBW, "        func_args = tuple(\n            apply_blockwise_key_func(a, predecessor_back_key_functions_dict)\n            for a in args\n        )", "        live = {k: v for k, v in predecessor_back_key_functions_dict.items() if v is not None}\n        func_args = tuple(apply_blockwise_key_func(a, live) for a in args)"),
 )
+# seeded round 2 (C07-3, C13-3, C13-4)
+mutant(
+    "M131-superseded-mark-only-while-pending",
+    ["C13", "C08"],
+    "MAP-ONCE-1",
+    (ASYNC, "                    if backup in pending:\n                        pending.remove(backup)\n                    del backups[task]\n                    del backups[backup]\n                    backup.cancel()\n                    superseded.add(backup)\n", "                    if backup in pending:\n                        pending.remove(backup)\n                        superseded.add(backup)\n                    del backups[task]\n                    del backups[backup]\n                    backup.cancel()\n"),
+)
+mutant(
+    "M132-region-task-list-is-generator",
+    ["C13"],
+    "COUNT-1",
+    (OPS, "        output_blocks = OutputBlocksIterable(region, shape, chunks)\n", "        output_blocks = (list(cp[0]) for cp in _create_zarr_indexer(region, shape, chunks))\n"),
+)
+benign(
+    "B-region-task-list-is-list",
+    ["C13", "C11"],
+    (OPS, "        output_blocks = OutputBlocksIterable(region, shape, chunks)\n", "        output_blocks = [list(cp[0]) for cp in _create_zarr_indexer(region, shape, chunks)]\n"),
+)
+mutant(
+    "M133-resume-checks-first-output-only",
+    ["C09", "C07", "C10"],
+    "RESUME-ALL-1",
+    (PLAN, "    for output in dag.successors(name):\n        target = nodes[output].get(\"target\", None)\n        if target is not None:\n            try:", "    for output in list(dag.successors(name))[:1]:\n        target = nodes[output].get(\"target\", None)\n        if target is not None:\n            try:"),
+)
